@@ -88,8 +88,8 @@ func runInputs(c *hx.Ctx, ins []*Input, base int, par int) []*outcome {
 	}
 	mouts := runSharded(mjobs, par, nil)
 	// phase 2: syncers, for the inputs whose member produced a chain
-	var sjobs []*Job
-	var sidx []int
+	var sjobs, rjobs []*Job
+	var sidx, ridx []int
 	for i, in := range ins {
 		m := mouts[i]
 		c.Eval()
@@ -122,10 +122,37 @@ func runInputs(c *hx.Ctx, ins []*Input, base int, par int) []*outcome {
 		if !ok {
 			continue
 		}
-		sjobs = append(sjobs, &Job{Role: "syncer", Dir: dir(i, "syncer"), BookKey: in.BookKey, Sealed: sealed, Restart: in.Restart, Track: in.Track})
+		first := sealed
+		if p := in.ProcRestart; p > 0 && p < len(sealed) {
+			// the node is restarted as a new process before block index p: the rest goes to phase 3
+			first = sealed[:p]
+			rjobs = append(rjobs, &Job{Role: "syncer", Dir: dir(i, "syncer"), BookKey: in.BookKey, Sealed: sealed[p:], Resume: true, Track: in.Track})
+			ridx = append(ridx, len(sjobs))
+		}
+		sjobs = append(sjobs, &Job{Role: "syncer", Dir: dir(i, "syncer"), BookKey: in.BookKey, Sealed: first, Restart: in.Restart, Track: in.Track})
 		sidx = append(sidx, i)
 	}
 	souts := runSharded(sjobs, par, pre)
+	// phase 3: the restarted syncers, in processes of their own (started only now: they must not have
+	// seen anything of the chain before)
+	var run3 []*Job
+	var run3at []int
+	for k, j := range rjobs {
+		if s := souts[ridx[k]]; s.Fatal == "" && (len(s.Blocks) == 0 || s.Blocks[len(s.Blocks)-1].AddErr == "") {
+			run3 = append(run3, j)
+			run3at = append(run3at, ridx[k])
+		}
+	}
+	for k, r := range runSharded(run3, par, nil) {
+		s := souts[run3at[k]]
+		c.Eval()
+		if r.Fatal != "" {
+			s.Fatal = "restarted process: " + r.Fatal
+			continue
+		}
+		s.Blocks = append(s.Blocks, r.Blocks...)
+		s.Digests, s.TreeSize, s.Millis = r.Digests, r.TreeSize, s.Millis+r.Millis
+	}
 	for k, i := range sidx {
 		m, s := mouts[i], souts[k]
 		c.Eval()
@@ -219,7 +246,7 @@ func compare(in *Input, m, s *ChildOut, fail func(what, clause string, got, want
 		// state and event stores must be identical; the block store of a node that was restarted
 		// also holds the header-index batches written at start-up, so it is compared only otherwise
 		stores := []string{"states", "ledgerevent"}
-		if in.Restart == 0 {
+		if in.Restart == 0 && in.ProcRestart == 0 {
 			stores = append(stores, "block")
 		}
 		for _, st := range stores {
@@ -523,6 +550,7 @@ func Run(c *hx.Ctx) {
 		func(g *txGen) *Input { return g.probeUnsortedMultisig() },
 		func(g *txGen) *Input { return g.probeOntfsErrors(8) },
 		func(g *txGen) *Input { return g.probeCycleDetector() },
+		func(g *txGen) *Input { return g.probeStaleGasParam() },
 	} {
 		ins = append(ins, mk(newGen(c.Rng, c.Count)))
 	}
@@ -535,7 +563,14 @@ func Run(c *hx.Ctx) {
 		if i%2 == 1 {
 			in.Repeat = 1
 		}
+		if i%4 == 3 && in.Restart > 0 { // a real process restart instead of close/reopen
+			in.ProcRestart, in.Restart = in.Restart, 0
+		}
 		ins = append(ins, in)
+	}
+	// 5. parameter change + process restart
+	for i := 0; i < c.N(1, 6); i++ {
+		ins = append(ins, newGen(c.Rng, c.Count).paramRestartChain())
 	}
 	outs := runInputs(c, ins, 0, c.N(2, 4))
 	ms := int64(0)
@@ -565,6 +600,9 @@ func Run(c *hx.Ctx) {
 		}
 		if in.Restart > 0 {
 			c.Count("input:syncer-restarts")
+		}
+		if in.ProcRestart > 0 {
+			c.Count("input:syncer-restarts-as-new-process")
 		}
 		if o.member == nil {
 			continue
